@@ -21,7 +21,9 @@ impl Labels {
 	fn get_or_add_unchecked(&mut self, pc: u16) -> &mut Label {
 		self.labels.entry(pc).or_insert_with(|| {
 			let label = Label { id: self.max_id };
-			self.max_id += 1;
+			// There are at most 65536 distinct bytecode offsets (0..=65535), each of them gets one id: the ids never
+			// collide, and after handing out the last possible one the counter isn't used again.
+			self.max_id = self.max_id.wrapping_add(1);
 			label
 		})
 	}
